@@ -17,17 +17,18 @@ CLAIMS = {
  "C17": ("proof", "5 C17", "Exit protocol: allocate.c wrappers report a failed request once through the installed handler; yaep's handler never returns; every allocation site inside functions under contract carries the exit assertion; "
          "the unwinding branches of yaep_create_grammar and yaep_parse are verified from any state satisfying it.",
          "Allocation sites inside build_pl/make_parse/error_recovery are not under contract (their unwinding branch is)."),
- "C10": ("proof", "5 C10 / 9", "First region of yaep_read_grammar (cut out mechanically on every run, rule R5) under contract with the terminal loop closed by an invariant: the object is switched to, emptied and marked "
-         "undefined before the first callback; every error exit of the region leaves it undefined and its code names a defect that was really delivered (witness conditions); no defect is missed on the normal path. "
-         "Rule intake, flags and verdicts are decided in bounded form by native exhaustive stand-ins on the real code (every grammar of a small space against a least-fixpoint specification; "
-         "every combination of the documented intake defects), labelled bounded and not counted as proved.",
-         "Contracts cover the terminal-intake region only; symbol-table lookups answer 'found' iff added before (assumed, C19)."),
+ "C10": ("proof", "5 C10 / 9", "yaep_read_grammar is cut mechanically (rules R5-R8, on every run) into four regions that together are the whole function, each under its own contract: terminal intake (loop closed by an invariant: "
+         "the object is switched to, emptied and marked undefined before the first callback), the rule loop around its body, the body for one delivered rule (every rule-level error code has a witness in what the "
+         "callback delivered; on normal end no rule-level defect is present and the rule record is exactly what was delivered; bounded to 8 names / translation numbers per rule, counterexamples are replayed on the "
+         "real library), the tail (NO_RULES, implicit error rule, check, undefined_p cleared last; bounded list walk); check_grammar's verdicts are proved given the flags (both loops closed by contracts). "
+         "The flag computations themselves (least fixpoints) are decided in bounded form by native exhaustive stand-ins on the real code, labelled bounded and not counted as proved.",
+         "Hand-over of state between the regions is checked by reading; symbol-table lookups answer 'found' iff added before (A7: composed on paper from C19 and the symb_add_* contracts); flag fixpoints bounded."),
  "C11": ("proof", "5 C11 / 9", "The hand-written lexer under contract with all five loops closed (cursor never passes the terminating NUL, token kinds by first character, number and line arithmetic), "
          "yaep_parse_grammar's protocol (object switched to first, failure code returned, intermediate form released once, otherwise exactly yaep_read_grammar's result), the replay callbacks. "
          "Code assignment (tail of set_sgrammar) is a bounded set; the bison actions are covered in bounded form by a native differential stand-in (description text against the callback-defined twin).",
          "The bison automaton is not under contract; token text accumulation is a stated drop in the lexer set."),
  "C13": ("proof", "5 C13 / 9", "Tree-node constructors under contract: place_translation and copy_anode request blocks of exactly the node size (+ child slots) from parse_alloc and write only them; "
-         "symb_add_term copies the name into the grammar's storage (different object, equal bytes). yaep_free_tree and the whole-parse ownership statement are native exhaustive stand-ins (bounded).",
+         "symb_add_term, symb_add_nonterm and (thorough tier) rule_new_start copy the name into the grammar's storage (different object, equal bytes). yaep_free_tree and the whole-parse ownership statement are native exhaustive stand-ins (bounded).",
          "Pairing of parse_alloc/parse_free over a whole yaep_parse is a fact about make_parse: bounded native stand-in only."),
  "C04": ("proof", "5 C04 / 9", "prune_to_minimal base cases full-domain (leaf costs 0; an already processed shared node reports its recorded total), copy_anode copies the cost, "
          "traverse_pruned_translation restores a shared node once (bounded), static fact that make_parse restores the one-parse flag unconditionally.",
